@@ -5,6 +5,7 @@ import Np.Proofs.DetPoly
 import Np.Proofs.Reduce
 import Np.Proofs.ReduceFns
 import Np.Proofs.BilinearFns
+import Np.Proofs.ReduceFns2
 /-! C10 — reductions and linear algebra equal finite sums and products of elements: property theorems -/
 namespace Np.Props.C10
 open MvPolynomial
@@ -227,5 +228,35 @@ theorem inner_is_sum_of_products (rc rn : Bool) (a b : Arr R) (ha : a.WF) (hb : 
       ∀ q : Fin (size r.shape), r.elem q = ((List.range n).map fun t => elemD a t * elemD b t).sum :=
   bilinearOp_innerVecP rc rn a b ha hb n
 end bilinear
+
+/-! ### `diff` with prepend / append, `ediff1d` with to_begin / to_end, products over axis tuples
+(`Np/Model/ReduceFns2.lean`) -/
+section tables2
+open Np.Shape Np.ReduceFns Np.ReduceFns2
+
+/-- `numpy.prod` over an axis tuple (numpy's semantics: the reduced axes are removed unless keepdims): an input
+multi-index belongs to exactly the group of its projection, every group has `Π shape[ax]` members, none twice -/
+theorem prod_axes_groups (shape axes : List Nat) (k : Bool) (h1 : ∀ ax ∈ axes, ax < shape.length) (h2 : axes.Nodup) :
+    ∃ G, prodAxesG shape axes k = some (if k then keepShape axes shape 0 else dropShape axes shape 0, G) ∧
+    G.length = size (keepShape axes shape 0) ∧ G.length = size (dropShape axes shape 0) ∧
+    (∀ g ∈ G, g.Pairwise (· < ·) ∧ ∀ i ∈ g, i < size shape) ∧
+    (∀ jdx, InR jdx (keepShape axes shape 0) → ∀ idx, InR idx shape →
+      (ravel shape idx ∈ G.getD (ravel (keepShape axes shape 0) jdx) [] ↔ projIdx axes idx 0 = jdx)) ∧
+    (∀ idx, InR idx shape → InR (projIdx axes idx 0) (keepShape axes shape 0)) ∧
+    ∀ jdx, InR jdx (keepShape axes shape 0) →
+      (G.getD (ravel (keepShape axes shape 0) jdx) []).length = axesCount shape axes :=
+  prodAxesG_spec shape axes k h1 h2
+
+/-- `numpy.diff(a, prepend=P, append=A)`: the first difference of the concatenation `[P, a, A]` along the axis - output
+index `u` reads `cat[u+1]` with weight 1 and `cat[u]` with weight −1, each in its own operand -/
+theorem diff_with_prepend_append (a b : List Nat) (m : Nat) (p q : Option Nat) :
+    ∃ T, diffPadW (a ++ m :: b) 1 a.length (padShape a b p) (padShape a b q) =
+        some (a ++ (catLen m p q - 1) :: b, T) ∧
+      T.length = size (a ++ (catLen m p q - 1) :: b) ∧
+      ∀ x y u, InR x a → InR y b → u + 1 < catLen m p q →
+        T.getD (ravel (a ++ (catLen m p q - 1) :: b) (x ++ u :: y)) [] =
+          [((catAt a b m p q x y (u + 1)).1, (catAt a b m p q x y (u + 1)).2, 1),
+            ((catAt a b m p q x y u).1, (catAt a b m p q x y u).2, -1)] := diffPadW_one a b m p q
+end tables2
 
 end Np.Props.C10
